@@ -46,6 +46,9 @@ let rec parse_tt (toks: Stdlib.String.t list) : tt list * Stdlib.String.t list =
       let digits = match int_value n with Some v -> v >= 0 && v <= 999999 | None -> false in
       let lit = if digits then LNat (nat_of_int (match int_value n with Some v -> v | None -> 0))
                 else if String.length n >= 2 && n.[0] = '"' then LStr (cstr (String.sub n 1 (String.length n - 2)))    (* next_literal strips the quotes *)
+                else if String.length n >= 3 && n.[0] = 'r' && (n.[1] = '"' || n.[1] = '#') then begin                 (* ... of a raw string too: r"..", r#".."# *)
+                  let h = ref 0 in while n.[1 + !h] = '#' do incr h done;
+                  LStr (cstr (String.sub n (!h + 2) (String.length n - 2 * !h - 3))) end
                 else LStr (cstr n) in
       (TLit lit :: l, r)
   | g :: rest when String.length g = 2 && g.[0] = 'G' ->
